@@ -770,9 +770,18 @@ class Interp:
             if _is_int(v[0]):
                 return FInt(abs(v[0]))
             return el(abs, v[0])
-        if nm == 'sign':
+        if nm in ('sign', 'dsign'):
+            if len(v) != 2:
+                raise F90Error(f"intrinsic {nm} takes two arguments, {len(v)} given (the emitted text is not valid Fortran here)")
             a, b = symx.as_sym(_num(v[0])), symx.as_sym(_num(v[1]))
             return symx.ite(b >= 0, abs(a), -abs(a))
+        if nm == 'merge':
+            if len(v) != 3:
+                raise F90Error(f"intrinsic merge takes three arguments, {len(v)} given")
+            mask = v[2]
+            if isinstance(mask, (bool, np.bool_)):
+                return v[0] if mask else v[1]
+            return symx.ite(mask, _num(v[0]), _num(v[1]))
         if nm in ('max', 'min'):
             r = v[0]
             for x in v[1:]:
